@@ -320,6 +320,9 @@ func (ex *Exec) scanSummary(src *tokSrc, tokenType types.Type) Value {
 			table[j] = e.value
 		}
 		var val Value = &VStr{sel: sel, table: table}
+		if sel.isConst() && int(sel.val) < len(table) {
+			val = table[sel.val]
+		}
 		out[i] = Struct{ex.simp(kind), Struct{ex.simp(start), ex.simp(src.ends[i])}, val}
 	}
 	return out
